@@ -48,6 +48,15 @@ def check_blocks(P, c, blocks):
     if not isinstance(blocks, list) or not all(isinstance(b, RefCircuit) for b in blocks):
         return {"problem": "supergates() does not return a list of circuits"}
     produced = {}
+    pos_of_output = {}
+    for idx, b in enumerate(blocks):
+        for o in b.outputs():
+            pos_of_output.setdefault(o, idx)
+    for idx, b in enumerate(blocks):
+        for i in b.inputs():
+            if c2.type(i) != "input" and i in pos_of_output and pos_of_output[i] > idx:
+                return {"problem": "blocks are not in topological order: the supergate that outputs an input of this block comes later", "block_output": sorted(b.outputs()), "input": i,
+                        "order": [sorted(x.outputs())[0] if x.outputs() else None for x in blocks]}
     for idx, b in enumerate(blocks):
         outs = b.outputs()
         if len(outs) != 1:
@@ -138,9 +147,20 @@ def run(chk):
     P = Package(repo)
     fams = list(deep_circuits()) + list(one_gate_circuits(max_arity=4, types=["and", "nor", "xor", "not"])) + list(two_level_circuits(limit=30 if chk.tier == "quick" else 150))
     n = 0
-    for name, c in fams:
+    multi_out = [
+        ("shared-logic-3-outputs", build({"a": ("input", []), "b": ("input", []), "c": ("input", []), "g0": ("and", ["a", "b"]), "g1": ("or", ["g0", "c"]), "g2": ("nand", ["g1", "a"]),
+                                          "g3": ("xor", ["g2", "g0"]), "g4": ("nor", ["g2", "c"])}, outputs=["g3", "g4", "g1"])),
+        ("internal-in-one-cone-root-in-another", build({"i0": ("input", []), "i1": ("input", []), "i2": ("input", []), "g0": ("or", ["i0", "i1"]), "g2": ("xor", ["g0", "i2"]),
+                                                       "g3": ("xor", ["g2", "i0"]), "g4": ("buf", ["g2"])}, outputs=["g3", "g4"])),
+        ("chain-of-roots", build({"a": ("input", []), "b": ("input", []), "g0": ("nand", ["a", "b"]), "g2": ("not", ["g0"]), "g3": ("and", ["g2", "a"]), "g4": ("or", ["g3", "g2"])}, outputs=["g4", "g3", "g0"])),
+    ]
+    salts = range(12) if chk.tier == "quick" else range(48)
+    runs = [(f"{name}", c, 0) for name, c in fams] + [(f"{name}@order{s}", c, s) for name, c in multi_out + [x for x in fams if len(x[1].outputs()) > 1] for s in salts]
+    for name, c, salt in runs:
+        RefCircuit._salt = salt  # explores the iteration orders of the internal *set of circuits*
         snap = c._snapshot()
         r = P.call(FILE, "supergates", c)
+        RefCircuit._salt = 0
         n += 1
         key = f"supergates::{name}"
         if r[0] != "return":
